@@ -168,6 +168,14 @@ impl NodeDrive {
                         );
                     } else {
                         log::debug!("To reclame_space nothing need to be done on delete");
+                        // The key is not carried over to the new files, so the tombstone must not
+                        // stay in memory pointing at an address of the old key file
+                        let mut map = db.map.write().unwrap();
+                        if let Some(current) = map.get(&key) {
+                            if current.state == ValueStatus::Deleted {
+                                map.remove(&key);
+                            }
+                        }
                     }
                 }
             }
